@@ -286,7 +286,9 @@ def build(fam: Family, spec: gen.Spec):
         if did is not None:
             kw["data_id"] = did
         if fam.typed:
-            kw["kind"] = kind
+            # every node gets its *own* str object for its kind (as kinds read from records / files are): kinds are
+            # compared by value, an implementation comparing them with `is` must fail
+            kw["kind"] = "".join(list(kind)) if isinstance(kind, str) else kind
         nodes.append(parent.add(mk(lab), **kw))
     return tree, nodes
 
